@@ -1,4 +1,5 @@
 import BddProofs.PathsIter
+import BddProofs.QueryFrame
 import BddProofs.TotalQuery
 import BddProofs.PathsSum
 import BddProofs.Init
@@ -53,6 +54,24 @@ theorem C14_paths_total {fuel : Nat} {s : St} {V : Nat} {f : Ref} {φ : Fn} (hg 
 example : paths 3 s4 Ref.one = some [[]] ∧ Good s4 ∧ Valid s4.nodes Ref.one (fun _ => true) :=
   ⟨by decide, s4_good, Valid.one⟩
 
+/-- `paths` and `one_sat` read nothing but the cells below their argument: along any history of the
+manager that keeps the function alive (operations only add nodes; collections during which it is
+protected), they keep giving the same answer -/
+theorem C14_answers_survive_history {f : Ref} {s s' : St} (h : FrameSteps f s s') (hg : Good s)
+    (hf : Live s f.idx) (fuel : Nat) (acc : List Int) :
+    paths fuel s' f = paths fuel s f ∧ oneSat fuel s' f acc = oneSat fuel s f acc :=
+  ⟨paths_steps h hg hf fuel, oneSat_steps h hg hf fuel acc⟩
+
+/-- the LAZY iterator — one turn of the loop in each of the states `ts` the manager goes through while
+other operations run, the rest in `s` — yields, when it finishes, exactly the cubes of an
+uninterrupted enumeration in the state `s0` it was opened in -/
+theorem C14_lazy_iterator_is_snapshot {s0 s : St} {f : Ref} {fuel : Nat} {ts : List St}
+    {out : List (List Int)} (hg : Good s0) (hf : Live s0 f.idx)
+    (hts : ∀ t, t ∈ ts → FrameSteps f s0 t) (hs : FrameSteps f s0 s)
+    (h : pathsLazy fuel s ts ([(f, [])], []) = some out) :
+    paths (fuel + ts.length) s0 f = some out :=
+  paths_lazy_steps hg hf hts hs h
+
 end P
 #print axioms P.C14_one_sat_none
 #print axioms P.C14_one_sat_some
@@ -61,3 +80,5 @@ end P
 #print axioms P.C14_paths_sorted
 #print axioms P.C14_paths_sum
 #print axioms P.C14_paths_total
+#print axioms P.C14_answers_survive_history
+#print axioms P.C14_lazy_iterator_is_snapshot
